@@ -114,3 +114,13 @@ Theorem C15_backups_keep_links :
       ilookup t (i_names (irun s added ds)) = Some i /\ i_node (irun s added ds) i = i_node s i.
 Proof. exact backups_keep_links. Qed.
 Print Assumptions C15_backups_keep_links.
+
+(* every log a push writes, whole command - resolve, apply, save, clean, rejects, backups, applied-patches - for every
+   configuration, goal, tree and fault position, is truthful: it replays on the names of the start tree (no unlink of a
+   name that is not there, no create that mis-states whether its name was bound) and ends with the names of the
+   final tree.  This is what the driver evaluates as TRUTHFUL on every case and what gives the flag T/C its meaning *)
+Theorem C15_every_log_is_truthful :
+  forall cfg db g fs fs' r, cmd_push cfg db g fs = (fs', r) ->
+  exists added, fs_log fs' = fs_log fs ++ added /\ nrun (fnames fs) added = Some (fnames fs').
+Proof. exact cmd_push_tracks. Qed.
+Print Assumptions C15_every_log_is_truthful.
